@@ -324,6 +324,48 @@ func runC13(r *mc.Run) {
 		t[17] = world.DERSeq(oid(2, 18), world.DERInt64(5))
 		add("bad/type/cpusvn=int", base, assemble(base, stdOrder, t, top), wantError)
 	}
+	// identifier octet of every value at every other setting (tag number, class bits and constructed bit are one octet:
+	// a check of the tag number alone lets 0x24, 0x44, ... 0xe4 pass for an OCTET STRING)
+	reTag := func(der []byte, id byte) []byte {
+		out := append([]byte(nil), der...)
+		out[0] = id
+		return out
+	}
+	for id := 0; id < 256; id++ {
+		for _, o := range []oct{{"ppid", []int{1}, 16}, {"pceid", []int{3}, 2}, {"fmspc", []int{4}, 6}} {
+			if id == 0x04 {
+				continue
+			}
+			t2 := map[string][]byte{}
+			for k, v := range top {
+				t2[k] = v
+			}
+			val := map[string][]byte{"ppid": base.PPID, "pceid": base.PCEID, "fmspc": base.FMSPC}[o.key]
+			t2[o.key] = world.DERSeq(oid(o.sub...), reTag(world.DEROctet(val), byte(id)))
+			add(fmt.Sprintf("bad/identifier/%s=%#02x", o.key, id), base, assemble(base, stdOrder, tcb, t2), wantError)
+		}
+		for _, i := range []int{0, 7, 15, 16, 17} {
+			right := byte(0x02)
+			if i == 17 {
+				right = 0x04
+			}
+			if byte(id) == right {
+				continue
+			}
+			t := append([][]byte(nil), tcb...)
+			var v []byte
+			switch {
+			case i < 16:
+				v = world.DERInt64(int64(base.CPUSVN[i]))
+			case i == 16:
+				v = world.DERInt64(int64(base.PCESVN))
+			default:
+				v = world.DEROctet(base.Blob())
+			}
+			t[i] = world.DERSeq(oid(2, i+1), reTag(v, byte(id)))
+			add(fmt.Sprintf("bad/identifier/tcb%d=%#02x", i+1, id), base, assemble(base, stdOrder, t, top), wantError)
+		}
+	}
 	// trailing bytes at each nesting level
 	good := world.SGXExtension(base)
 	add("trailing/after-extension", base, append(append([]byte(nil), good...), 0x05, 0x00), wantError)
